@@ -181,7 +181,10 @@ class Run:
             vacuity_witnesses=sum(1 for o in self.obs if o.vacuity),
             translator_validation=self.translator_validation,
             all_obligations=[dict(id=o.id, status=o.status, solver=o.solver, s=round(o.solver_s, 2)) for o in self.obs],
-            explanation=" ".join(self.notes),
+            explanation=(f"{len(holds)} of {len(self.obs)} obligations decided HOLDS ({len(kn)} known findings, {len(viol)} violations, "
+                         f"{len(inconc)} inconclusive) by {', '.join(sorted(by_solver)) or 'no solver'}; deciding step = solver verdict over all values "
+                         f"within the stated bounds, never sampling. " + " ".join(self.notes)
+                         + (" OUTSIDE THE CLAIM: " + "; ".join(self.outside) if self.outside else "")),
             exhaustive=False,
         )
         cov.update(self.extra)
